@@ -871,6 +871,16 @@ func (w *world) buildDRC() *pkgv1beta1.DeploymentRuntimeConfig {
 		}
 		rc.Spec.ServiceTemplate = &pkgv1beta1.ServiceTemplate{Metadata: &pkgv1beta1.ObjectMeta{Labels: map[string]string{"team": "a"}}}
 	}
+	if d.Tmpl == "empty" {
+		// templates that are present but say nothing: must behave like absent ones
+		useDT = true
+		if dt.Metadata == nil {
+			dt.Metadata = &pkgv1beta1.ObjectMeta{}
+		}
+		dt.Spec = &appsv1.DeploymentSpec{}
+		rc.Spec.ServiceTemplate = &pkgv1beta1.ServiceTemplate{}
+		rc.Spec.ServiceAccountTemplate = &pkgv1beta1.ServiceAccountTemplate{Metadata: &pkgv1beta1.ObjectMeta{Labels: map[string]string{}}}
+	}
 	if d.Ext {
 		useDT = true
 		if dt.Spec == nil {
@@ -882,7 +892,9 @@ func (w *world) buildDRC() *pkgv1beta1.DeploymentRuntimeConfig {
 		rc.Spec.DeploymentTemplate = dt
 	}
 	if d.San != "none" || d.Tmpl == "rich" {
-		rc.Spec.ServiceAccountTemplate = &pkgv1beta1.ServiceAccountTemplate{Metadata: &pkgv1beta1.ObjectMeta{}}
+		if rc.Spec.ServiceAccountTemplate == nil || rc.Spec.ServiceAccountTemplate.Metadata == nil {
+			rc.Spec.ServiceAccountTemplate = &pkgv1beta1.ServiceAccountTemplate{Metadata: &pkgv1beta1.ObjectMeta{}}
+		}
 		if d.San != "none" {
 			rc.Spec.ServiceAccountTemplate.Metadata.Name = ptr.To(d.San)
 		}
